@@ -533,30 +533,33 @@ func (p Sqlite) UpdateContactPoint(contact *alertutils.Contact) error {
 		return err
 	}
 
-	if len(contact.Slack) != 0 {
-		err := p.db.Model(&alertutils.Contact{ContactId: contact.ContactId}).Association("Slack").Clear()
-		if err != nil {
-			err = fmt.Errorf("UpdateContactPoint: unable to update contact : %v, Error=%+v", contact.ContactName, err)
-			log.Error(err.Error())
-			return err
+	// clear the old associations and save the new record atomically: a rejected update (e.g. a name that is
+	// already in use) must leave the stored contact unchanged
+	err = p.db.Transaction(func(tx *gorm.DB) error {
+		if len(contact.Slack) != 0 {
+			err := tx.Model(&alertutils.Contact{ContactId: contact.ContactId}).Association("Slack").Clear()
+			if err != nil {
+				return err
+			}
 		}
-	}
-	if len(contact.Webhook) != 0 {
-		err := p.db.Model(&alertutils.Contact{ContactId: contact.ContactId}).Association("Webhook").Clear()
-		if err != nil {
-			err = fmt.Errorf("UpdateContactPoint: unable to update contact: %v, Error=%+v", contact.ContactName, err)
-			log.Error(err.Error())
-			return err
+		if len(contact.Webhook) != 0 {
+			err := tx.Model(&alertutils.Contact{ContactId: contact.ContactId}).Association("Webhook").Clear()
+			if err != nil {
+				return err
+			}
 		}
-	}
-	result := p.db.Session(&gorm.Session{FullSaveAssociations: true}).Save(&contact)
-	if result.Error != nil && result.RowsAffected != 1 {
-		err := fmt.Errorf("UpdateContactPoint: unable to update contact: %v, Error=%+v", contact.ContactName, err)
+		result := tx.Session(&gorm.Session{FullSaveAssociations: true}).Save(&contact)
+		if result.Error != nil && result.RowsAffected != 1 {
+			return result.Error
+		}
+		return nil
+	})
+	if err != nil {
+		err = fmt.Errorf("UpdateContactPoint: unable to update contact: %v, Error=%+v", contact.ContactName, err)
 		log.Error(err.Error())
 		return err
 	}
 	return nil
-
 }
 
 // get contact_id and message from all_alerts table using alert_id
